@@ -47,3 +47,8 @@ pub fn rt<T: Encode + Decode>(v: &T, sentinel: u8) -> (T, usize, usize) {
 pub fn from_utf8_stub(v: Vec<u8>) -> Result<String, std::string::FromUtf8Error> {
     Ok(unsafe { String::from_utf8_unchecked(v) })
 }
+
+/// Same for `core::str::from_utf8` (used by `Path::to_str`).
+pub fn str_from_utf8_stub(v: &[u8]) -> Result<&str, std::str::Utf8Error> {
+    Ok(unsafe { std::str::from_utf8_unchecked(v) })
+}
